@@ -19,11 +19,11 @@ func init() { register("C11", checkC11) }
 func checkC11(c *Ctx) {
 	c.Rule("C11/R1", "guards: no result is produced for an empty sample; the exact branch rejects a single rank group (all values equal) and the approximate branch rejects zero variance, both before any p-value is computed")
 	c.Rule("C11/R2", "every switch over the alternative hypothesis handles its three constants")
-	c.Rule("C11/R3", "closed forms (identity over the rationals, per alternative and branch): U1 = R1 - n1(n1+1)/2; the exact tails CDF(U1), 1-CDF(U1-1), 2·CDF(min(U1,U2)) or 1 at the centre; mu = n1n2/2; sigma^2 = n1n2((N+1) - t/(N(N-1)))/12; continuity correction ∓1/2 by alternative; the three normal tails; the tie term is the sum of t^3 - t; a tied group's rank is the mean of its first and last rank")
+	c.Rule("C11/R3", "closed forms (identity over the rationals, per alternative and branch): U1 = R1 - n1(n1+1)/2; the exact distribution is built for (n1, n2) in this order (as a set on untied paths); the exact tails CDF(U1), 1-CDF(U1-1), 2·CDF(min(U1,U2)) or 1 at the centre; mu = n1n2/2; sigma^2 = n1n2((N+1) - t/(N(N-1)))/12; continuity correction ∓1/2 by alternative; the three normal tails; the tie term is the sum of t^3 - t; a tied group's rank is the mean of its first and last rank")
 	c.Rule("C11/R4", "the exact method is used exactly when both sizes are within the limit that applies (the tie limit when ties were seen, the plain limit otherwise); ties are flagged whenever a rank group has more than one member, in either sample, and the tie vector always reaches the exact distribution")
 	c.Rule("C11/R5", "every p-value the test can return lies in [0,1] by construction (interval evaluation with CDF values in [0,1] and min(x,1-x) <= 1/2)")
 	c.Rule("C11/R7", "exact distribution code: every integer quotient in the tie-aware counting code has a dividend tested non-negative (truncating division is the floor only then); the untied mass function reads p(k)[k] for k = floor(U) or its mirror image n1n2 - floor(U)")
-	c.Rule("C11/R8", "binomial coefficients are exact where they are integers: the int64 product in mathChoose is guarded by n <= 20")
+	c.Rule("C11/R8", "binomial coefficients are exact where they are integers: the int64 product in mathChoose is guarded by n <= 20; C(n,k) is 0 outside 0 <= k <= n and 1 at k = 0 and k = n (constant evaluation of eleven boundary arguments)")
 	c.Rule("C11/R6", "the legacy wrappers return every test error (converted) with p = -1 and the test's own P otherwise")
 
 	p := mustLoad(c, loadOpts{}, "./internal/stats", "./benchstat")
@@ -285,7 +285,7 @@ func c11Forms(c *Ctx, p *Prog, fn *ssa.Function) {
 	pts := []map[string]*big.Rat{
 		{"n1": rat(5, 1), "n2": rat(7, 1), "R1": rat(33, 1), "t": rat(12, 1)},
 		{"n1": rat(30, 1), "n2": rat(41, 1), "R1": rat(1500, 1), "t": rat(0, 1)},
-		{"n1": rat(8, 1), "n2": rat(8, 1), "R1": rat(36, 1), "t": rat(60, 1)},
+		{"n1": rat(9, 1), "n2": rat(6, 1), "R1": rat(60, 1), "t": rat(60, 1)},
 	}
 	cdf := func(dist string, x *big.Rat) *big.Rat { return e7UF("CDF:"+dist, x) }
 	nCases := 0
@@ -355,10 +355,13 @@ func c11Forms(c *Ctx, p *Prog, fn *ssa.Function) {
 			var ref, symmetric func(g func(string) *big.Rat) *big.Rat
 			var refs []func(g func(string) *big.Rat) *big.Rat
 			if branch == "exact" {
-				dist := "exact"
+				// the exact distribution is that of the first sample's U: UDist{N1: n1, N2: n2}. Without ties it is the same
+				// distribution with the sizes exchanged, so the sizes are compared as a set on paths known to be untied.
+				c11DistSorted = ties == "false"
+				dist := func(g func(string) *big.Rat) string { return c11ExactDist(g("n1"), g("n2")) }
 				switch altName {
 				case "LocationLess":
-					ref = func(g func(string) *big.Rat) *big.Rat { return cdf(dist, u1(g)) }
+					ref = func(g func(string) *big.Rat) *big.Rat { return cdf(dist(g), u1(g)) }
 				case "LocationGreater", "LocationDiffers":
 					// P(U >= U1) = 1 - CDF(U1 - step): U moves in whole steps without ties and half steps with ties
 					var steps []*big.Rat
@@ -371,7 +374,7 @@ func c11Forms(c *Ctx, p *Prog, fn *ssa.Function) {
 						steps = []*big.Rat{rat(1, 1), rat(1, 2)} // one expression for both cases must be right in both
 					}
 					greater := func(step *big.Rat) func(g func(string) *big.Rat) *big.Rat {
-						return func(g func(string) *big.Rat) *big.Rat { return rSub(rat(1, 1), cdf(dist, rSub(u1(g), step))) }
+						return func(g func(string) *big.Rat) *big.Rat { return rSub(rat(1, 1), cdf(dist(g), rSub(u1(g), step))) }
 					}
 					for _, st := range steps {
 						st := st
@@ -381,7 +384,7 @@ func c11Forms(c *Ctx, p *Prog, fn *ssa.Function) {
 						}
 						// twice the smaller tail, capped at 1
 						refs = append(refs, func(g func(string) *big.Rat) *big.Rat {
-							a, b := cdf(dist, u1(g)), greater(st)(g)
+							a, b := cdf(dist(g), u1(g)), greater(st)(g)
 							if b.Cmp(a) < 0 {
 								a = b
 							}
@@ -404,7 +407,7 @@ func c11Forms(c *Ctx, p *Prog, fn *ssa.Function) {
 							if b.Cmp(a) < 0 {
 								m = b
 							}
-							v := rMul(rat(2, 1), cdf(dist, m))
+							v := rMul(rat(2, 1), cdf(dist(g), m))
 							if v.Cmp(rat(1, 1)) > 0 {
 								return rat(1, 1)
 							}
@@ -413,6 +416,7 @@ func c11Forms(c *Ctx, p *Prog, fn *ssa.Function) {
 					}
 				}
 			} else {
+				c11DistSorted = false
 				dist := "normal"
 				ref = func(g func(string) *big.Rat) *big.Rat {
 					N := rAdd(g("n1"), g("n2"))
@@ -560,6 +564,19 @@ func truncate(s string, n int) string {
 	return s
 }
 
+// c11DistSorted: compare the sizes of the exact distribution as a set (the untied distribution is symmetric in them).
+var c11DistSorted bool
+
+func c11ExactDist(n1, n2 *big.Rat) string {
+	if n1 == nil || n2 == nil {
+		return "exact"
+	}
+	if c11DistSorted && n1.Cmp(n2) > 0 {
+		n1, n2 = n2, n1
+	}
+	return "exact[" + n1.RatString() + "," + n2.RatString() + "]"
+}
+
 // c11Eval: like ratEnv.eval, with CDF methods as uninterpreted functions keyed by distribution kind and mathSign interpreted.
 func c11Eval(e *ratEnv, s *Sym) *big.Rat {
 	if s.Op == "call" {
@@ -569,15 +586,28 @@ func c11Eval(e *ratEnv, s *Sym) *big.Rat {
 		}
 		switch {
 		case strings.HasSuffix(name, ".CDF"):
-			kind := "exact"
-			if strings.Contains(name, "NormalDist") {
-				kind = "normal"
+			kind := "normal"
+			if !strings.Contains(name, "NormalDist") {
+				// the exact distribution is identified by the sample sizes it was built with
+				n1, n2 := e.named["n1"], e.named["n2"]
+				if rcv := s.Args[0]; rcv.Op == "struct" && rcv.Fields["N1"] != nil && rcv.Fields["N2"] != nil {
+					n1, n2 = c11Eval(e, rcv.Fields["N1"]), c11Eval(e, rcv.Fields["N2"])
+				}
+				kind = c11ExactDist(n1, n2)
 			}
 			return e7UF("CDF:"+kind, c11Eval(e, s.Args[len(s.Args)-1]))
 		case strings.HasSuffix(name, "mathSign"):
 			return big.NewRat(int64(c11Eval(e, s.Args[0]).Sign()), 1)
 		case name == "math.Sqrt":
 			return e7UF("math.Sqrt", c11Eval(e, s.Args[0]))
+		case name == "min" || name == "max":
+			best := c11Eval(e, s.Args[0])
+			for _, a := range s.Args[1:] {
+				if v := c11Eval(e, a); (name == "min") == (v.Cmp(best) < 0) && v.Cmp(best) != 0 {
+					best = v
+				}
+			}
+			return best
 		case name == "math.Min":
 			x, y := c11Eval(e, s.Args[0]), c11Eval(e, s.Args[1])
 			if x.Cmp(y) <= 0 {
@@ -1099,6 +1129,33 @@ func c11Choose(c *Ctx, p *Prog) {
 		}
 	}
 	c.Floor(R, "integer products in mathChoose", n, 1)
+	// boundary values, evaluated on constant arguments: C(n,k) = 0 outside 0 <= k <= n and 1 at both ends. The tie-aware
+	// counting sums products of coefficients over index ranges that step outside the triangle and relies on the zeros.
+	nb := 0
+	for _, tc := range []struct{ n, k, want int64 }{{5, -1, 0}, {3, 5, 0}, {0, 1, 0}, {0, -1, 0}, {5, 0, 1}, {5, 5, 1}, {0, 0, 1}, {30, -2, 0}, {30, 31, 0}, {30, 0, 1}, {30, 30, 1}} {
+		init := map[ssa.Value]*Sym{
+			fn.Params[0]: symConst(constant.MakeInt64(tc.n), fn.Params[0].Type()),
+			fn.Params[1]: symConst(constant.MakeInt64(tc.k), fn.Params[1].Type()),
+		}
+		outs, why := e6Enumerate(func() *e6Interp {
+			return &e6Interp{Init: init, PureCall: func(f *types.Func) bool { return true }}
+		}, fn.Blocks[0], nil, nil, 64)
+		key := fmt.Sprintf("mathChoose(%d,%d)", tc.n, tc.k)
+		site := p.pos(fn.Pos())
+		if why != "" || len(outs) != 1 {
+			c.Undecided(R, key, site, fmt.Sprintf("boundary value not decided by constant evaluation (%s, %d paths)", why, len(outs)))
+			continue
+		}
+		o := outs[0]
+		nb++
+		if o.Term != "return" || len(o.Results) != 1 || !o.Results[0].isConst() || o.Results[0].Const == nil {
+			c.Bad(R, key, site, fmt.Sprintf("C(%d,%d) is not returned as a constant on the boundary path (documented value %d)", tc.n, tc.k, tc.want))
+			continue
+		}
+		got, _ := constant.Float64Val(o.Results[0].Const)
+		c.Check(got == float64(tc.want), R, key, site, fmt.Sprintf("= %d", tc.want), fmt.Sprintf("C(%d,%d) is returned as %g, the binomial coefficient is %d: the tie-aware counting sums coefficients over ranges that leave the triangle and relies on them being zero, so exact tied p-values change", tc.n, tc.k, got, tc.want))
+	}
+	c.Floor(R, "boundary values of mathChoose", nb, 11)
 }
 
 func stripConvInt(v ssa.Value) ssa.Value {
